@@ -1,7 +1,7 @@
 (* The thread-level library operations (Lang/ThreadOps.v) are trees of blocks that respect the
    strong frame, hence any frame relation F implied by it.  No Admitted / Axiom. *)
 From Coq Require Import List NArith Bool Arith Lia.
-From SV Require Import Clock.VClock Prim.Objects Prim.Atomic Engine.Exec Engine.Inv Lang.Code Lang.ThreadOps Proofs.EngineBase.
+From SV Require Import Clock.VClock Prim.Objects Prim.Atomic Prim.Tls Engine.Exec Engine.Inv Lang.Code Lang.ThreadOps Proofs.EngineBase.
 Import ListNotations.
 
 (* ------------------------------------------------------------------ *)
@@ -57,21 +57,67 @@ Proof. intros [|] k Hk; unfold switch_if; [apply okP_switch|]; exact Hk. Qed.
 (* ------------------------------------------------------------------ *)
 (* the library operations                                              *)
 (* ------------------------------------------------------------------ *)
-Lemma thread_epilogue_okP : code_okP F thread_epilogue.
+Lemma publish_code_okP : code_okP F publish_code.
 Proof.
-  unfold thread_epilogue. apply atomic_b_okP.
+  unfold publish_code. apply atomic_u_okP; [|apply okP_ret].
+  intros e s e' s' Hr H.
+  destruct (me e) as [t|]; [|discriminate].
+  destruct (e_take_waiter e t) as [[e1 [w|]]|] eqn:E1; [| |discriminate].
+  + pose proof (e_take_waiter_sframe _ _ _ _ Hr E1) as F1.
+    destruct (e_unblock e1 w) as [e2|] eqn:E2; [|discriminate].
+    inversion H; subst.
+    eapply sframe_trans; [exact F1|].
+    eapply e_unblock_sframe; [eapply sframe_rok; exact F1|exact E2].
+  + inversion H; subst. eapply e_take_waiter_sframe; [exact Hr|exact E1].
+Qed.
+
+(* the destructor loop: its blocks touch the store only *)
+Lemma tls_loop_okP : forall n tls dtor k,
+  (forall d k', code_okP F k' -> code_okP F (dtor d k')) ->
+  code_okP F k -> code_okP F (tls_loop n tls dtor k).
+Proof.
+  induction n as [|n IH]; intros tls dtor k Hd Hk; cbn [tls_loop]; [apply okP_panic|].
+  apply atomic_okP_intro.
+  - intros e s e' s' a Hr H.
+    destruct (me e) as [m|]; [|discriminate].
+    destruct (tls_pop s tls m) as [[s1 [[[key v] d]|]]|]; [| |discriminate];
+      inversion H; subst; apply sframe_refl; exact Hr.
+  - intros a.
+    assert (Hrec : code_okP F (tls_loop n tls dtor k)) by (apply IH; assumption).
+    repeat match goal with
+           | |- code_okP _ (match ?x with _ => _ end) => destruct x
+           end; try exact Hk; try exact Hrec.
+    all: apply okP_log;
+         repeat match goal with
+                | |- code_okP _ (match ?x with _ => _ end) => destruct x
+                end; first [exact Hrec | apply Hd; exact Hrec].
+Qed.
+
+Lemma thread_epilogue_d_okP : forall tls dtor,
+  (forall d k', code_okP F k' -> code_okP F (dtor d k')) ->
+  code_okP F (thread_epilogue_d tls dtor).
+Proof.
+  intros tls dtor Hd. unfold thread_epilogue_d. apply atomic_b_okP.
   - intros e s e' s' b Hr H. destruct (exit_truncates e) as [b0|]; [|discriminate].
     inversion H; subst. apply sframe_refl; exact Hr.
-  - intros b. apply switch_if_okP. apply atomic_u_okP; [|apply okP_ret].
-    intros e s e' s' Hr H.
-    destruct (me e) as [t|]; [|discriminate].
-    destruct (e_take_waiter e t) as [[e1 [w|]]|] eqn:E1; [| |discriminate].
-    + pose proof (e_take_waiter_sframe _ _ _ _ Hr E1) as F1.
-      destruct (e_unblock e1 w) as [e2|] eqn:E2; [|discriminate].
-      inversion H; subst.
-      eapply sframe_trans; [exact F1|].
-      eapply e_unblock_sframe; [eapply sframe_rok; exact F1|exact E2].
-    + inversion H; subst. eapply e_take_waiter_sframe; [exact Hr|exact E1].
+  - intros b. apply switch_if_okP. apply tls_loop_okP; [exact Hd|apply publish_code_okP].
+Qed.
+
+Lemma scoped_epilogue_d_okP : forall z tls dtor,
+  (forall d k', code_okP F k' -> code_okP F (dtor d k')) ->
+  code_okP F (scoped_epilogue_d z tls dtor).
+Proof.
+  intros z tls dtor Hd. unfold scoped_epilogue_d. apply atomic_b_okP.
+  - intros e s e' s' b Hr H. destruct (exit_truncates e) as [b0|]; [|discriminate].
+    inversion H; subst. apply sframe_refl; exact Hr.
+  - intros b. apply switch_if_okP. apply atomic_u_okP.
+    + intros e s e' s' Hr H.
+      destruct (scope_get s z) as [[[[|r] m] w]|]; try discriminate.
+      destruct (Nat.eqb r 0 && w).
+      * destruct (e_unblock e m) as [e1|] eqn:E1; [|discriminate].
+        inversion H; subst. eapply e_unblock_sframe; [exact Hr|exact E1].
+      * inversion H; subst. apply sframe_refl; exact Hr.
+    + apply tls_loop_okP; [exact Hd|apply publish_code_okP].
 Qed.
 
 Lemma join_code_okP : forall target k, code_okP F k -> code_okP F (join_code target k).
@@ -93,6 +139,8 @@ Proof.
       intros e s e' s' Hr H.
       destruct (me e) as [m|]; [|discriminate].
       destruct (e_clock e target) as [c|]; [|discriminate].
+      destruct (get_task e target) as [tk|]; [|discriminate].
+      destruct (is_finished tk); [|discriminate].
       destruct (e_update_clock e m c) as [e1|] eqn:E1; [|discriminate].
       inversion H; subst. eapply e_update_clock_sframe; [exact Hr|exact E1].
 Qed.
@@ -137,7 +185,7 @@ Proof.
   - intros e s e' s' ans Hr H.
     destruct (me e) as [m|]; [|discriminate].
     destruct (get_obj s a) as [ob|]; [|discriminate].
-    destruct ob as [v c| | | | | | | | |]; try discriminate.
+    destruct ob as [v c| | | | | | | | | | | | ]; try discriminate.
     destruct (a_apply ty o v) as [[newv okf] ret].
     assert (Htail : forall e1, sframe e e1 ->
       (if a_inhales ty o v
